@@ -340,6 +340,10 @@ func c02History(r *vkit.Run, caseNo int, rg *vkit.Rand, all bool) {
 				keys = append(keys, series[si].Key)
 			}
 			opErr = s.DeleteRange(keys, o.Min, o.Max)
+		case "snapfail":
+			if err := s.SnapshotFailing(); err != nil {
+				r.Event("failed_snapshots", 1)
+			}
 		case "snapshot":
 			opErr = s.Snapshot()
 		case "level":
